@@ -831,11 +831,11 @@ theorem parseExpr_fine (inp : Input) : ∀ fuel rbp p, R inp p < fuel → Fine i
       exact fine_err inp p _ (by simp [tokErr])
     · simp only [heof, Bool.false_eq_true, if_false, bind, Except.bind, pure, Except.pure]
       have hne : p.tok.type ≠ .eof := by simpa using heof
-      have hadv := advance_fine inp false p
-      cases ha : advance inp false p with
+      have hadv := advance_fine inp (opensOperand p.tok.type) p
+      cases ha : advance inp (opensOperand p.tok.type) p with
       | error e => exact fine_err inp p e (hadv.1 e ha)
       | ok p1 =>
-        have hdec := (advance_R inp false p p1 ha).2 hne
+        have hdec := (advance_R inp (opensOperand p.tok.type) p p1 ha).2 hne
         have hgood : GoodPE inp (parseExpr inp fuel) (R inp p1) := fun rbp' q hq => ih rbp' q (by omega)
         simp only []
         refine fine_mono inp p p1 _ ?_ (by omega)
